@@ -91,3 +91,14 @@ reg('C15', 'static analysis: provenance of every value stored into the destinati
     'test over all mutations, forwarding of rules and options',
     'For every port tree and rule set: a prefix comparison that is not separator-terminated, a port stored uncopied, a shared container or dropped/unchecked options '
     'are found from the code. The selected set beyond segment-exactness is not decided.', NOTE)
+
+reg('C16', 'static analysis: dispatch-table comparison of the RPC and broadcast handlers with the direct calls and with MessageBuilder / controllers, sibling '
+    'agreement of the two handlers, CFG exactly-once and provenance of the state_changed announcement (sender, <from>.<to> order), handler coverage of the '
+    'tolerated broadcast failures, subscribe/cleanup pairing, regex folding of the broadcast filter, parameter forwarding of LoopCommunicator',
+    'For every message sequence: each intent maps to the same call with the same arguments as a direct caller\'s; one announcement per transition with the right '
+    'subject and sender; tolerated failures are caught; every subscription has its cleanup. Equivalence with the directly controlled twin is not decided.', NOTE)
+reg('C17', 'static analysis: task-type dispatch exhaustiveness with a rejecting fallthrough, key/parameter agreement between the body builders and the handlers they '
+    'are **-expanded into, must-pass rejection guards before construction/load, must-facts and ordering for persist-before-run and nowait replies, provenance of '
+    'the loader and load context',
+    'For every flag combination: a create task cannot step, persist precedes stepping, continue loads exactly (pid, tag), a missing persister rejects before anything '
+    'happens, the configured loader is the one used for classes and in the load context.', NOTE)
